@@ -674,8 +674,45 @@ func PrintAllTypes() {
 
 func PrintTargetClassExtends() {
 	className := getTargetClass()
+	targetFrame := ""
+	isQualified := false
 
-	for classNode, parents := range base.ClassInheritanceMap {
+	// --class=Outer::Name selects the class of that namespace
+	if base.IsNameSpace(className) {
+		frame, parentClass, class := base.SeparateNameSpaces(className)
+		targetFrame = base.CalculateFrame(frame, parentClass)
+		className = class
+		isQualified = true
+	}
+
+	// several namespaces may define a class of this short name: the choice
+	// must not depend on map iteration order, and the class of the shortest
+	// (outermost) namespace wins
+	var candidates []base.ClassNode
+
+	for classNode := range base.ClassInheritanceMap {
+		if classNode.Class != className {
+			continue
+		}
+
+		if isQualified && classNode.Frame != targetFrame {
+			continue
+		}
+
+		candidates = append(candidates, classNode)
+	}
+
+	sort.Slice(candidates, func(i, j int) bool {
+		if len(candidates[i].Frame) != len(candidates[j].Frame) {
+			return len(candidates[i].Frame) < len(candidates[j].Frame)
+		}
+
+		return candidates[i].Frame < candidates[j].Frame
+	})
+
+	for _, classNode := range candidates {
+		parents := base.ClassInheritanceMap[classNode]
+
 		if classNode.Class == className {
 			for _, parent := range parents {
 				switch parent.Class {
